@@ -146,6 +146,22 @@ fn cursor_left(c: &Cursor<Vec<u8>>) -> usize {
     c.get_ref().len() - (c.position() as usize).min(c.get_ref().len())
 }
 
+/// After end of stream further read() calls must keep returning Ok(0) and must not touch the
+/// source (C16: a caller that polls again, or a wrapper that reads until two zero results, must
+/// find the source where the stream ended).  Returns "" when that holds, else a marker that makes
+/// the observation differ from the model's and the oracle fail.
+pub fn again_after_end<R: Read>(r: &mut R) -> String {
+    let mut buf = [0u8; 16];
+    for i in 0..2 {
+        match r.read(&mut buf) {
+            Ok(0) => {}
+            Ok(n) => return format!(" AGAIN=read {} after the end returned {} bytes", i + 1, n),
+            Err(e) => return format!(" AGAIN=read {} after the end failed with kind {}", i + 1, err_code(&e)),
+        }
+    }
+    String::new()
+}
+
 fn catch(f: impl FnOnce() -> String) -> String {
     std::panic::catch_unwind(std::panic::AssertUnwindSafe(f)).unwrap_or_else(|_| "PANIC".to_string())
 }
@@ -186,7 +202,10 @@ pub fn xz_impl_read(file: &[u8], multi: bool, sizes: &[usize], cap: usize) -> St
         let mut r = XZReader::new(Cursor::new(file.to_vec()), multi);
         let (out, end) = drive(&mut r, sizes, cap);
         match end {
-            DriveEnd::End => format!("END {} {}", hex(&out), cursor_left(&r.into_inner())),
+            DriveEnd::End => {
+                let again = again_after_end(&mut r);
+                format!("END {} {}{}", hex(&out), cursor_left(&r.into_inner()), again)
+            }
             DriveEnd::Err(c) => format!("ERR{} {}", c, hex(&out)),
             DriveEnd::Cap => format!("CAP {}", hex(&out)),
         }
@@ -263,6 +282,9 @@ pub fn ref_obs(r: &Result<Vec<u8>, String>) -> String {
 pub fn read_oracle(obs: &str, kind: &str, reference: Option<Result<Vec<u8>, String>>) -> String {
     if obs.starts_with("PANIC") {
         return "FAIL reader panicked".into();
+    }
+    if let Some(i) = obs.find(" AGAIN=") {
+        return format!("FAIL after end of stream: {}", &obs[i + 7..]);
     }
     if obs.starts_with("ERR99") {
         return "FAIL reader does not terminate".into();
@@ -360,7 +382,10 @@ pub fn lzip_impl_read(file: &[u8], sizes: &[usize], cap: usize) -> String {
         Ok(mut r) => {
             let (out, end) = drive(&mut r, sizes, cap);
             match end {
-                DriveEnd::End => format!("END {} {}", hex(&out), cursor_left(&r.into_inner())),
+                DriveEnd::End => {
+                    let again = again_after_end(&mut r);
+                    format!("END {} {}{}", hex(&out), cursor_left(&r.into_inner()), again)
+                }
                 DriveEnd::Err(c) => format!("ERR{} {}", c, hex(&out)),
                 DriveEnd::Cap => format!("CAP {}", hex(&out)),
             }
